@@ -1,14 +1,18 @@
 /* C09 - qmail-remote.c smtp(): the whole SMTP dialogue against a scripted server, NR
- * recipients.  Encoded from /repo: qmail-remote.c smtp, smtpcode, get, saferead, safewrite,
- * quit, dropped, outsmtptext, out, zero, zerodie + stralloc units.
+ * recipients.  Encoded from /repo: qmail-remote.c smtp, smtpcode, get, saferead, quit,
+ * outsmtptext, out, zero, zerodie + stralloc units.
  * Cut: blast() (C06 proves what it sends and that flagcritical is 1 once the final dot is
  * out; here a contract stub that "sends message and dot", optionally with a write failure
- * before or at the dot) and outhost() (formats the peer address).
+ * before or at the dot), outhost() (formats the peer address) and dropped() (reachable
+ * from each of the ~150 unrolled read sites; with its report writing and the oracle
+ * inlined at every site the NR=1 query took 713 s / 6 GB.  Here: an observing stub that
+ * checks WHEN it is called and what flagcritical is; WHAT it then reports - one Z record,
+ * "Possible duplicate" iff flagcritical - is obligation dropped_quit, dropped.c).
  *
  * Server script (template, DESIGN 3): for each phase - greeting, HELO, MAIL, RCPT 1..NR,
  * DATA, final dot - a symbolic 3-digit code 000..999, a symbolic "two-line reply" flag
- * ("ddd-t LF ddd t LF"), symbolic CRLF/LF line ends, one symbolic text byte (any value
- * but LF, so NUL and CR inside the text are covered), and one symbolic disconnect: phase
+ * ("ddd-t LF ddd t LF"), one symbolic text byte t (any value but LF: NUL in the text is
+ * covered, and t = CR makes the line end CRLF), and one symbolic disconnect: phase
  * and byte offset inside that phase's reply at which the connection ends (EOF or
  * error/timeout) - i.e. before the reply, inside it, after its first line ...
  * The server answers by command verb (RCPT: by the address in the command), so nothing
@@ -18,9 +22,10 @@
  *   reports are NUL-terminated records; first the recipient reports, in ARGUMENT order,
  *   recipient i: r iff its RCPT reply < 400, h iff >= 500, s otherwise; then exactly one
  *   message report: K iff some r, DATA reply < 400 and final reply < 400; D for >= 500 at
- *   MAIL / DATA / final, Z for 4xx there; Z for greeting != 220 or HELO != 250; Z for a
- *   lost connection, with "Possible duplicate" iff the final dot had been sent; no
- *   recipient accepted: Z or D (documents do not say which), never K.  Server text
+ *   MAIL / DATA / final, Z for 4xx there; Z for greeting != 220 or HELO != 250; a lost
+ *   connection: dropped() is called (=> Z), after the complete reports of the recipients
+ *   answered so far, with flagcritical set iff the final dot had been sent; no recipient
+ *   accepted: Z or D (documents do not say which), never K.  Server text
  *   cannot add records (NUL in a reply).  Report flushed, exit 0.  The message is
  *   transferred only after DATA was accepted for at least one accepted recipient. */
 #include "verif.h"
@@ -41,7 +46,6 @@
 /* ---- the script: all nondeterminism */
 unsigned char sc_code[NPH][3];
 unsigned char sc_cont[NPH];
-unsigned char sc_cr[NPH];
 unsigned char sc_text[NPH];
 unsigned char sc_dropph;         /* phase whose reply is cut short; >= NPH: connection stays up */
 unsigned char sc_dropoff;        /* bytes of that reply delivered before the end */
@@ -63,10 +67,13 @@ static int answered[NPH];        /* reply of this phase completely delivered */
 static char letters[NR + 2];
 static unsigned int nrec;
 static int rec_start = 1;
-static unsigned int rep_unflushed;
-static unsigned int dupm;        /* matcher state for "Possible duplicate" */
-static int dup_seen;
-static const char duppat[] = "Possible duplicate";
+static int rep_unflushed;
+
+/* ---- expected outcome, computed from the script before the run (ref_walk) */
+static int exp_lost, exp_dup, exp_giveup, exp_blast;
+static unsigned int exp_nrcpt;
+static char exp_msg;
+static char exp_rc[NR];
 
 char subfd_outbufsmall[256];
 static substdio it_outsmall = SUBSTDIO_FDBUF(write, 1, subfd_outbufsmall, 256);
@@ -88,13 +95,13 @@ void sym_inputs(void)
 #if NR >= 3
   SYM_ARR(sc_code[7]);
 #endif
-  SYM_ARR(sc_cont); SYM_ARR(sc_cr); SYM_ARR(sc_text);
+  SYM_ARR(sc_cont); SYM_ARR(sc_text);
   SYM(sc_dropph); SYM(sc_dropoff); SYM(sc_endkind); SYM(sc_blastfail);
 #endif
 }
 
 static unsigned int code_of(int ph) { return 100u * sc_code[ph][0] + 10u * sc_code[ph][1] + sc_code[ph][2]; }
-static unsigned int line_len(int ph) { return 6u + sc_cr[ph]; }                /* d d d sep t [CR] LF */
+static unsigned int line_len(int ph) { return 6u; }                            /* d d d sep t LF */
 static unsigned int reply_len(int ph) { return line_len(ph) * (1u + sc_cont[ph]); }
 
 static unsigned char reply_byte(int ph, unsigned int k)
@@ -104,7 +111,6 @@ static unsigned char reply_byte(int ph, unsigned int k)
   if (k < 3) return (unsigned char) ('0' + sc_code[ph][k]);
   if (k == 3) return (sc_cont[ph] && first) ? '-' : ' ';
   if (k == 4) return sc_text[ph];
-  if (k == 5 && sc_cr[ph]) return '\r';
   return '\n';
 }
 
@@ -166,9 +172,7 @@ int ideal_putc(substdio *s, unsigned char c)
     rec_start = 0;
   }
   if (c == 0) { ++nrec; rec_start = 1; }
-  if (c == (unsigned char) duppat[dupm]) { if (++dupm == sizeof duppat - 1) { dup_seen = 1; dupm = 0; } }
-  else dupm = (c == 'P') ? 1 : 0;
-  ++rep_unflushed;
+  rep_unflushed = 1;
   return 0;
 }
 
@@ -188,7 +192,7 @@ void blast(void)
 {
   CHECK(!blast_called, "the message is transferred once");
   blast_called = 1;
-  CHECK(pend < 0 && answered[PH_DATA] && code_of(PH_DATA) < 400, "C09: message is sent only after DATA was accepted");
+  CHECK(exp_blast && pend < 0 && answered[PH_DATA], "C09: the message is sent only after a recipient and then DATA were accepted");
   if (sc_blastfail == 1) { ended = 1; dropped(); }
   flagcritical = 1;
   dot_sent = 1;
@@ -196,82 +200,107 @@ void blast(void)
   pend = PH_DOT; off = 0;
 }
 
-/* ---- the oracle, evaluated when qmail-remote exits */
+/* ---- the oracle */
 static char rcpt_class(unsigned int c) { return c >= 500 ? 'h' : c >= 400 ? 's' : 'r'; }
-
-void vf__exit(int status)
-{
-  unsigned int i, exp_nrcpt = 0;
-  int some_r = 0, lost = 0, exp_dup = 0, giveup = 0;
-  char exp_msg = 0;
-  char exp_rc[NR];
-
-  /* reference walk through the dialogue; "cut(ph)": the connection ended in phase ph */
 #define CUT(ph) ((int) sc_dropph == (ph))
-  if (CUT(PH_GREET)) lost = 1;
+
+/* reference walk through the dialogue, in protocol order */
+static void ref_walk(void)
+{
+  unsigned int i;
+  int some_r = 0;
+  if (CUT(PH_GREET)) exp_lost = 1;
   else if (code_of(PH_GREET) != 220) exp_msg = 'Z';
-  else if (CUT(PH_HELO)) lost = 1;
+  else if (CUT(PH_HELO)) exp_lost = 1;
   else if (code_of(PH_HELO) != 250) exp_msg = 'Z';
-  else if (CUT(PH_MAIL)) lost = 1;
+  else if (CUT(PH_MAIL)) exp_lost = 1;
   else if (code_of(PH_MAIL) >= 500) exp_msg = 'D';
   else if (code_of(PH_MAIL) >= 400) exp_msg = 'Z';
   else {
     for (i = 0; i < NR; ++i) {
-      if (lost) break;
-      if (CUT(PH_RCPT0 + (int) i)) { lost = 1; break; }
+      if (CUT(PH_RCPT0 + (int) i)) { exp_lost = 1; break; }
       exp_rc[i] = rcpt_class(code_of(PH_RCPT0 + (int) i));
       if (exp_rc[i] == 'r') some_r = 1;
       ++exp_nrcpt;
     }
-    if (lost) ;
-    else if (!some_r) giveup = 1;
-    else if (CUT(PH_DATA)) lost = 1;
+    if (exp_lost) ;
+    else if (!some_r) exp_giveup = 1;
+    else if (CUT(PH_DATA)) exp_lost = 1;
     else if (code_of(PH_DATA) >= 500) exp_msg = 'D';
     else if (code_of(PH_DATA) >= 400) exp_msg = 'Z';
-    else if (sc_blastfail == 1) lost = 1;
-    else if (sc_blastfail == 2) { lost = 1; exp_dup = 1; }
-    else if (CUT(PH_DOT)) { lost = 1; exp_dup = 1; }
-    else if (code_of(PH_DOT) >= 500) exp_msg = 'D';
-    else if (code_of(PH_DOT) >= 400) exp_msg = 'Z';
-    else exp_msg = 'K';
+    else {
+      exp_blast = 1;
+      if (sc_blastfail == 1) exp_lost = 1;
+      else if (sc_blastfail == 2) { exp_lost = 1; exp_dup = 1; }
+      else if (CUT(PH_DOT)) { exp_lost = 1; exp_dup = 1; }
+      else if (code_of(PH_DOT) >= 500) exp_msg = 'D';
+      else if (code_of(PH_DOT) >= 400) exp_msg = 'Z';
+      else exp_msg = 'K';
+    }
   }
-  if (lost) exp_msg = 'Z';
+  if (exp_lost) exp_msg = 'Z';
+}
 
-  CHECK(status == 0, "qmail-remote always exits zero");
-  CHECK(rec_start && rep_unflushed == 0, "C09: every report is NUL-terminated and flushed before exit");
-  CHECK(lost == ended, "C09: 'connection died' exactly when the connection ended inside the dialogue");
-  CHECK(nrec == exp_nrcpt + 1, "C09: one report per answered recipient, then one message report, nothing else");
+static void check_rcpt_reports(void)
+{
+  unsigned int i;
+  CHECK(nrec >= exp_nrcpt, "C09: one report per answered recipient");
   for (i = 0; i < NR; ++i) {
     if (i >= exp_nrcpt || i >= nrec) break;
     CHECK(letters[i] == exp_rc[i], "C09: recipient report i (argument order) is r/h/s by the class of its RCPT reply");
   }
+}
+
+/* definition cut from the generated copy: called by saferead()/safewrite() when the
+ * connection is lost.  The real one (dropped.c) then reports Z, with "Possible
+ * duplicate" iff flagcritical, and exits. */
+void dropped(void)
+{
+  CHECK(ended, "C09: 'connection died' only when the connection really ended");
+  CHECK(exp_lost, "C09: connection lost exactly where the script ends it");
+  CHECK(rec_start && nrec == exp_nrcpt, "C09: the recipient reports made so far are complete; the message report follows");
+  check_rcpt_reports();
+  CHECK((flagcritical != 0) == exp_dup, "C09: flagcritical (=> 'Possible duplicate') iff the connection is lost after the final dot was sent");
+  if (exp_dup && CUT(PH_DOT) && sc_dropoff > 0) WITNESS("lost_inside_final_reply");
+  if (exp_dup && sc_blastfail == 2) WITNESS("lost_while_sending_dot");
+  if (!exp_dup && exp_blast && sc_blastfail == 1) WITNESS("lost_while_sending_message");
+  if (CUT(PH_GREET) && sc_dropoff == 0) WITNESS("lost_before_greeting");
+  if (CUT(PH_RCPT0 + NR - 1) && exp_nrcpt == NR - 1) WITNESS("lost_at_last_rcpt");
+  if (sc_endkind == -1 && CUT(PH_DATA)) WITNESS("timeout_at_data");
+  PATH_END();
+#ifdef VERIF_CBMC
+  __CPROVER_assume(0);
+#endif
+}
+
+/* every other way out of smtp(): quit() -> zerodie() -> _exit */
+void vf__exit(int status)
+{
+  CHECK(status == 0, "qmail-remote always exits zero");
+  CHECK(!ended && !exp_lost, "C09: a lost connection is reported by dropped(), nothing else");
+  CHECK(rec_start && rep_unflushed == 0, "C09: every report is NUL-terminated and flushed before exit");
+  CHECK(nrec == exp_nrcpt + 1, "C09: one report per answered recipient, then one message report, nothing else");
+  check_rcpt_reports();
   if (nrec >= 1) {
     char m = letters[nrec - 1];
     CHECK(m == 'K' || m == 'Z' || m == 'D', "C09: the last report is a message report");
-    if (giveup) { CHECK(m == 'Z' || m == 'D', "C09: no accepted recipient is never success"); }
-    else CHECK(m == exp_msg, "C09: message report K/Z/D by the reply classes of the dialogue");
+    if (exp_giveup) { CHECK(m == 'Z' || m == 'D', "C09: no accepted recipient is never success"); }
+    else { CHECK(m == exp_msg, "C09: message report K/Z/D by the reply classes of the dialogue"); }
   }
-  CHECK(dup_seen == exp_dup, "C09: 'Possible duplicate' iff the connection was lost after the final dot was sent");
-  CHECK(blast_called == (!giveup && exp_nrcpt == NR && !CUT(PH_DATA) && some_r && code_of(PH_DATA) < 400),
-        "C09: the message is transferred iff a recipient and DATA were accepted");
+  CHECK(blast_called == exp_blast, "C09: the message is transferred iff a recipient and then DATA were accepted");
 
-  if (exp_msg == 'K' && !giveup) WITNESS("delivered");
+  if (exp_msg == 'K') WITNESS("delivered");
   if (exp_msg == 'K' && NR >= 2 && exp_rc[0] == 'h' && exp_rc[1] == 'r') WITNESS("delivered_h_then_r");
   if (exp_msg == 'K' && NR >= 2 && exp_rc[0] == 'r' && exp_rc[1] == 's') WITNESS("delivered_r_then_s");
-  if (exp_msg == 'K' && sc_cont[PH_DOT] && sc_cr[PH_DOT] && sc_text[PH_DOT] == 0) WITNESS("delivered_multiline_nul_text");
-  if (giveup) WITNESS("no_recipient_accepted");
-  if (!lost && exp_msg == 'D' && answered[PH_DOT]) WITNESS("refused_after_dot_5xx");
-  if (!lost && exp_msg == 'Z' && answered[PH_DOT]) WITNESS("deferred_after_dot_4xx");
-  if (!lost && exp_msg == 'D' && answered[PH_DATA] && !blast_called) WITNESS("data_5xx");
-  if (!lost && exp_msg == 'D' && !answered[PH_RCPT0]) WITNESS("mail_5xx");
-  if (!lost && exp_msg == 'Z' && !answered[PH_HELO]) WITNESS("bad_greeting");
-  if (!lost && exp_msg == 'Z' && answered[PH_HELO] && !answered[PH_MAIL]) WITNESS("bad_helo");
-  if (lost && exp_dup && CUT(PH_DOT) && sc_dropoff > 0) WITNESS("lost_inside_final_reply");
-  if (lost && exp_dup && sc_blastfail == 2) WITNESS("lost_while_sending_dot");
-  if (lost && !exp_dup && sc_blastfail == 1) WITNESS("lost_while_sending_message");
-  if (lost && CUT(PH_GREET) && sc_dropoff == 0) WITNESS("lost_before_greeting");
-  if (lost && CUT(PH_RCPT0 + NR - 1) && exp_nrcpt == NR - 1) WITNESS("lost_at_last_rcpt");
-  if (lost && sc_endkind == -1 && CUT(PH_DATA)) WITNESS("timeout_at_data");
+  if (exp_msg == 'K' && sc_cont[PH_DOT] && sc_text[PH_DOT] == 0) WITNESS("delivered_multiline_nul_text");
+  if (exp_msg == 'K' && sc_text[PH_DOT] == '\r' && sc_text[PH_GREET] == '\r') WITNESS("delivered_crlf");
+  if (exp_giveup) WITNESS("no_recipient_accepted");
+  if (exp_msg == 'D' && answered[PH_DOT]) WITNESS("refused_after_dot_5xx");
+  if (exp_msg == 'Z' && answered[PH_DOT]) WITNESS("deferred_after_dot_4xx");
+  if (exp_msg == 'D' && answered[PH_DATA] && !blast_called) WITNESS("data_5xx");
+  if (exp_msg == 'D' && !answered[PH_RCPT0]) WITNESS("mail_5xx");
+  if (exp_msg == 'Z' && !answered[PH_HELO]) WITNESS("bad_greeting");
+  if (exp_msg == 'Z' && answered[PH_HELO] && !answered[PH_MAIL]) WITNESS("bad_helo");
   PATH_END();
 #ifdef VERIF_CBMC
   __CPROVER_assume(0);
@@ -284,11 +313,13 @@ void vmain(void)
   sym_inputs();
   for (i = 0; i < NPH; ++i) {
     ASSUME(sc_code[i][0] <= 9 && sc_code[i][1] <= 9 && sc_code[i][2] <= 9);
-    ASSUME(sc_cont[i] <= 1 && sc_cr[i] <= 1 && sc_text[i] != '\n');
+    ASSUME(sc_cont[i] <= 1 && sc_text[i] != '\n');
   }
   ASSUME(sc_endkind == 0 || sc_endkind == -1);
   ASSUME(sc_blastfail <= 2);
-  if (sc_dropph < NPH) ASSUME(sc_dropoff < reply_len(sc_dropph)); else ASSUME(sc_dropph == NPH && sc_dropoff == 0);
+  if (sc_dropph < NPH) { ASSUME(sc_dropoff < reply_len(sc_dropph)); }
+  else { ASSUME(sc_dropph == NPH && sc_dropoff == 0); }
+  ref_walk();
 
   helohost.s = "h"; helohost.len = 1;
   sender.s = "s"; sender.len = 1;
